@@ -426,9 +426,11 @@ def model_config(plan):
 def config_text(plan, scratch):
     out = []
     for lg in plan["loggers"]:
-        out.append("<%s>" % lg["kind"])
+        out.append("<%s%s>" % (lg["kind"], (" " + lg["label"])
+                               if lg.get("label") else ""))
         if lg["kind"] == "logger":
-            out.append("  name %s" % lg["name"])
+            if lg.get("name") is not None:
+                out.append("  name %s" % lg["name"])
             if lg.get("propagate") is not None:
                 out.append("  propagate %s" % lg["propagate"])
         if lg.get("level") is not None:
@@ -626,6 +628,17 @@ def generate(rng, tier, index):
         for _ in range(rng.choice([0, 1, 1, 2, 3])):
             lg["handlers"].append(gen_handler(rng, k, p_bad))
             k += 1
+        r_ = rng.random()
+        if r_ < 0.05:
+            # a <logger> section that configures no name: the root logger,
+            # whatever the section itself is labelled
+            lg["name"] = None
+            lg["label"] = rng.choice([None, "access%d" % n, "Main%d" % n,
+                                      "zcsim.x%d" % n])
+        elif r_ < 0.12:
+            # (a label on a section that does configure a name means nothing)
+            lg["label"] = rng.choice(["access%d" % n, "Main%d" % n,
+                                      "zcsim.other%d" % n])
         loggers.append(lg)
     if rng.random() < 0.3:
         lg = {"kind": "eventlog", "level": gen_level(rng, p_bad),
@@ -840,7 +853,8 @@ def generate(rng, tier, index):
             # the application has switched off the collection of thread and
             # process identifiers (logging.logThreads / logProcesses, the
             # documented optimisation): records carry None there
-            "log_ids_off": ids_off}
+            "log_ids_off": ids_off,
+            "pre_use": rng.random() < 0.3}
 
 
 # ---------------------------------------------------------------------------
@@ -1138,7 +1152,7 @@ def _execute(plan, out, scratch, w, clock, recs):
     factories = []
     if configure:
         probe("configureLoggers-entry")
-        factories = [_Shim(lg["name"]) for lg in plan["loggers"]]
+        factories = [_Shim(lg.get("name")) for lg in plan["loggers"]]
     else:
         it = iter(cfg.loggers)
         for lg in plan["loggers"]:
@@ -1152,8 +1166,8 @@ def _execute(plan, out, scratch, w, clock, recs):
     # per logger OBJECT (several sections may name the same logger): which
     # (section, handler) pairs are attached, in order, and which section's
     # factory ran last (its level / propagate are in force)
-    keys = [lg.get("name") if lg["kind"] == "logger" else "$root"
-            for lg in plan["loggers"]]
+    keys = [(lg.get("name") or "$root") if lg["kind"] == "logger"
+            else "$root" for lg in plan["loggers"]]
     attached = {k: [] for k in keys}
     owner = {k: None for k in keys}
     preattached = set()
@@ -1219,6 +1233,18 @@ def _execute(plan, out, scratch, w, clock, recs):
         if f is None:
             return None
         first = not created[i]
+        if first and i not in preattached and plan.get("pre_use"):
+            # the application (a library it imports) has used this logger,
+            # and a child of it, before the configuration is applied: the
+            # logging package remembers its answers to isEnabledFor()
+            for nm_ in (lg.get("name"), (lg.get("name") or "zcsimroot")
+                        + ".child"):
+                pl_ = logging.getLogger(nm_) if lg["kind"] == "logger" \
+                    else logging.getLogger()
+                for lv_ in (5, 10, 20, 30, 40, 50):
+                    pl_.isEnabledFor(lv_)
+                pl_ = None
+            probe("logger-used-before-configured")
         try:
             logger = f() if via == "call" else None
             if via == "reopen":
@@ -1284,12 +1310,31 @@ def _execute(plan, out, scratch, w, clock, recs):
         positions = [k for k, (a, _b) in enumerate(attached[key]) if a == i]
         om = models[owner[key]]
         olg = plan["loggers"][owner[key]]
+        # the logger ACTS on its level (the logging package caches the
+        # answers of isEnabledFor per logger; setLevel() is what clears them)
+        for lgr_ in (logger, logging.getLogger(
+                (lg.get("name") or "zcsimroot") + ".child")):
+            if lg["kind"] != "logger" or not lg.get("name"):
+                if lgr_ is not logger:
+                    continue
+            eff_ = lgr_.getEffectiveLevel()
+            for lv_ in (5, 10, 20, 30, 40, 50):
+                want_ = lv_ >= eff_ and lv_ > logging.root.manager.disable
+                if bool(lgr_.isEnabledFor(lv_)) != want_:
+                    violation("logger", "level-not-in-force",
+                              "%s: level %r (effective %r) but "
+                              "isEnabledFor(%d) says %r"
+                              % (lgr_.name, lgr_.level, eff_, lv_,
+                                 lgr_.isEnabledFor(lv_)), step)
+                    break
+        lgr_ = None
         if logger.level != om["level"]:
             violation("logger", "level",
                       "%s: level %r, configured %r -> %r"
                       % (name, logger.level, olg.get("level"), om["level"]),
                       step)
-        if lg["kind"] == "logger" and logger.propagate != om["propagate"]:
+        if lg["kind"] == "logger" and "propagate" in om \
+                and logger.propagate != om["propagate"]:
             violation("logger", "propagate",
                       "%s: propagate %r, configured %r (section %d, whose "
                       "factory ran last for this logger)"
